@@ -174,7 +174,7 @@ Proof.
                              else if qcov log q then match eff_ps log q with [] => RErr ENoPostings | _ :: _ => ROk (Some (next_nat ltx)) end
                                   else RErr EInsufficient)
                   else match find_by_ik log (rq_ik q) with
-                       | Some e => if same_kind (e_kind e) (rq_kind q) then ROk (e_txid e) else RErr EKindMismatch
+                       | Some e => if is_outcome_of q e then ROk (e_txid e) else RErr EKeyReused
                        | None => (if N.eqb (rq_ref q) 0
                         then if qcov log q then match eff_ps log q with [] => RErr ENoPostings | _ :: _ => ROk (Some (next_nat ltx)) end
                              else RErr EInsufficient
